@@ -100,6 +100,11 @@ def build_app(spec, validator=None, record=None, returns=None):
                 d['Annotations'] = type('Annotations', (ComplexModel.Annotations,), ann)
             if t.get('tname'):
                 d['__type_name__'] = t['tname']
+            if t.get('private'):
+                # kept out of the interface documents: classes derived from it publish its members as their own
+                d['Attributes'] = type('Attributes', (base.Attributes,), {'exc_interface': True})
+            elif t.get('base') and any(x['name'] == t['base'] and x.get('private') for x in spec['types']):
+                d['Attributes'] = type('Attributes', (base.Attributes,), {'exc_interface': False})
             env[t['name']] = ComplexModelMeta(str(t['name']), bases, d)
         elif t['k'] == 'enum':
             env[t['name']] = Enum(*t['values'], type_name=t['name'])
@@ -270,8 +275,11 @@ def extract_istate(app):
         else:
             kind = 'builtin'
         fields = []
+        ext = getattr(c, '__extends__', None)
+        private_parent = bool(kind == 'complex' and ext is not None and getattr(ext.Attributes, 'exc_interface', False))
         if kind == 'complex':
-            for k, v in (getattr(c, '_type_info', None) or {}).items():
+            ti = c.get_flat_type_info(c) if private_parent else (getattr(c, '_type_info', None) or {})
+            for k, v in ti.items():
                 a = v.Attributes
                 isattr = issubclass(v, XmlAttribute)
                 isdata = issubclass(v, XmlData)
@@ -285,7 +293,8 @@ def extract_istate(app):
             enums = [str(x) for x in c.__values__]
         elif kind == 'simple':
             enums = [str(x) for x in (c.Attributes.values or ())]
-        ext = getattr(c, '__extends__', None)
+        if private_parent:
+            ext = None          # no xs:extension: the parent is not in the documents
         if kind == 'simple':
             # the restriction base is chosen by model._check_extension_attrs (direct parent, or the root ancestor when
             # the customisation does not touch a facet); taken from the implementation, not re-implemented
@@ -880,6 +889,14 @@ def boundary_specs():
     out.append({'id': 'b-shared-svcname-default', 'tns': 'tns.main', 'name': 'App', 'types': [], 'services': [
         {'name': 'S1', 'service_name': 'Shared', 'methods': [{'fn': 'f', 'params': [['a', U]], 'returns': U}]},
         {'name': 'S2', 'service_name': 'Shared', 'methods': [{'fn': 'g', 'params': [['a', U]], 'returns': U}]}]})
+    out.append({'id': 'b-private-parent', 'tns': 'tns.main', 'name': 'App', 'types': [
+        {'k': 'complex', 'name': 'Audited', 'ns': 'ns.a', 'private': True, 'fields': [['created_by', U], ['revision', I]]},
+        {'k': 'complex', 'name': 'Document', 'ns': 'ns.a', 'base': 'Audited', 'fields': [['title', U], ['pages', I]]},
+        {'k': 'complex', 'name': 'Folder', 'ns': 'ns.b', 'fields': [['docs', {'arr': {'c': 'Document'}}], ['main', {'c': 'Document'}]]}],
+        'services': [{'name': 'S', 'methods': [
+            {'fn': 'store', 'params': [['d', {'c': 'Document'}]], 'returns': {'c': 'Document'}},
+            {'fn': 'folder', 'params': [['f', {'c': 'Folder'}]], 'returns': {'c': 'Folder'}},
+            {'fn': 'bare', 'params': [['d', {'c': 'Document'}]], 'returns': {'c': 'Document'}, 'body': 'bare'}]}]})
     out.append({'id': 'b-porttypes-1', 'tns': 'tns.main', 'name': 'App', 'types': [], 'services': [
         {'name': 'S', 'port_types': ['P1'], 'methods': [{'fn': 'f', 'params': [['a', U]], 'returns': U, 'port_type': 'P1'}]}]})
     out.append({'id': 'b-porttypes-2', 'tns': 'tns.main', 'name': 'App', 'types': [], 'services': [
@@ -1090,6 +1107,13 @@ def zeep_roundtrip(ctx, spec, wsdl_bytes, rng):
         # the validating server compiles the very schemas that are embedded in the WSDL
         return [('server-schema', None, '%s: %s' % (type(e).__name__, str(e)[:200]))]
     fails = []
+    if not spec.get('pins'):
+        # the document the validating server publishes is the document of the application, whatever the validator
+        served = wsgi.doc.wsdl11.get_interface_document()
+        if served != wsdl_bytes:
+            fails.append(('validator-changes-wsdl', None, 'the WSDL served with validator=lxml differs from the one built without '
+                          'a validator: %r' % (first_diff(wsdl_bytes.decode('utf8', 'replace'), served.decode('utf8', 'replace')),)))
+        wsdl_bytes = served
 
     class T(Transport):
         def post(self, address, message, headers):
@@ -1521,6 +1545,16 @@ def extra_checks(spec, data):
             bad.append(('xsl', 'the document with xsl_href differs from the plain one beyond the processing instruction'))
     except etree.XMLSyntaxError as e:
         bad.append(('xsl', 'not well-formed with xsl_href: %s' % e))
+    if not spec.get('pins'):
+        from spyne.server.wsgi import WsgiApplication
+        for v in ('lxml', 'soft'):
+            try:
+                wa = WsgiApplication(build_app(spec, validator=v).app)
+                wa.doc.wsdl11.build_interface_document(URL)
+                if wa.doc.wsdl11.get_interface_document() != data:
+                    bad.append(('validator', 'with validator=%r the served WSDL differs from the one built without a validator' % v))
+            except Exception as e:
+                bad.append(('validator', 'with validator=%r the WSDL cannot be built: %s: %s' % (v, type(e).__name__, str(e)[:150])))
     xs = XmlSchema(b.app.interface)
     xs.build_interface_document()
     alone = sorted(etree.tostring(v) for v in xs.get_interface_document().values())
